@@ -1,3 +1,80 @@
-"""Extra scenario family for C16 (asynchronous requests); see DESIGN.md C16."""
+"""Scenario family for C16 (asynchronous requests): A (time-based) with 1-2 agents connected
+with async_requests=True; every subset of the agents' steps carries a set_data call (plus
+get_data calls), a second gate after the call-back lets it interleave with everything;
+negative cases: requests towards an unconnected simulator and towards one connected without
+the flag."""
+from __future__ import annotations
+
+import itertools
+import math
+
+from .scenarios import T
+
+
+def aconn(src, dst, flag=True):
+    c = dict(src=src, dst=dst, sattr="po", dattr="mi")
+    if flag:
+        c["async"] = True
+    return c
+
+
+def subsets(xs):
+    for r in range(len(xs) + 1):
+        for c in itertools.combinations(xs, r):
+            yield c
+
+
+def family(tier):
+    out = []
+    until = 4
+    # one agent: every step-size ratio, every subset of its steps
+    for sa in (1, 2):
+        for sm in (1, 2, 3):
+            nsteps = math.ceil(until / sm)
+            for sub in subsets(range(nsteps)):
+                if not sub:
+                    continue
+                acts = {str(k): [("set", "A.e", "mi"), ("gate", 0)] for k in sub}
+                if 0 not in sub:
+                    acts["0"] = [("get", "A.e", "po")]
+                out.append((f"a1_A{sa}_M{sm}_{''.join(map(str, sub))}",
+                            dict(until=until, sims=[T("A", sa), T("M", sm, **{"async": acts})],
+                                 conns=[aconn("A", "M")])))
+    # two agents writing one attribute
+    for (s1, s2) in ((1, 1), (1, 2), (2, 3)):
+        for sub1 in ((0,), (0, 1), (1, 2)):
+            for sub2 in ((0,), (1,), (0, 2)):
+                a1 = {str(k): [("set", "A.e", "mi"), ("gate", 0)] for k in sub1}
+                a2 = {str(k): [("gate", 0), ("set", "A.e", "mi")] for k in sub2}
+                out.append((f"a2_M{s1}{s2}_{''.join(map(str, sub1))}_{''.join(map(str, sub2))}",
+                            dict(until=3, sims=[T("A"), T("M1", s1, **{"async": a1}),
+                                                T("M2", s2, **{"async": a2})],
+                                 conns=[aconn("A", "M1"), aconn("A", "M2")])))
+    # negative cases
+    out.append(("neg_no_flag", dict(
+        until=2, sims=[T("A"), T("M", 1, **{"async": {"0": [("set", "A.e", "mi")],
+                                                      "1": [("get", "A.e", "po")]}})],
+        conns=[aconn("A", "M", flag=False)])))
+    out.append(("neg_unconnected", dict(
+        until=2, sims=[T("A"), T("X"), T("M", 1, **{"async": {"0": [("set", "X.e", "mi"),
+                                                                    ("get", "X.e", "po")],
+                                                              "1": [("set", "A.e", "mi")]}})],
+        conns=[aconn("A", "M")])))
+    out.append(("neg_wrong_direction", dict(
+        until=2, sims=[T("A"), T("M", 1), T("Q", 1, **{"async": {"0": [("set", "M.e", "mi")]}})],
+        conns=[aconn("A", "M"), dict(src="M", dst="Q", sattr="po", dattr="mi")])))
+    return out
+
+
 def jobs(tier, seed):
-    return []
+    js = []
+    for name, scen in family(tier):
+        cfgs = [dict(lazy=True, cache=True), dict(lazy=False, cache=False)]
+        if tier == "thorough":
+            cfgs = [dict(lazy=l, cache=c) for l in (True, False) for c in (True, False)]
+        for cfg in cfgs:
+            js.append(dict(name="c16_" + name, scen=scen, cfg=cfg, budget=1, max_exec=3000))
+        if name.startswith(("neg", "a2")) or tier == "thorough":
+            js.append(dict(name="c16_" + name, scen=scen,
+                           cfg=dict(lazy=True, cache=True, transport="mem"), budget=0, max_exec=2000))
+    return js
